@@ -201,3 +201,50 @@ class Evaluator:
 
 def fold(prog, module, expr, scope=None):
     return Evaluator(prog).eval_in_module(module, expr, scope=scope)
+
+
+def eval_with(prog, module, expr, env, scope=None):
+    """evaluate a pure arithmetic / comparison expression AST over a finite assignment: `env` maps the
+    *text* of sub-expressions (e.g. 'len(peers)', 'page') to values; everything else must fold to a
+    constant.  Used to enumerate reader/writer arithmetic agreement over a small parameter range."""
+    ev = Evaluator(prog)
+
+    def go(e):
+        t = ast.unparse(e)
+        if t in env:
+            return env[t]
+        if isinstance(e, ast.Constant):
+            return e.value
+        if isinstance(e, ast.BinOp) and type(e.op) in _BIN:
+            return _BIN[type(e.op)](go(e.left), go(e.right))
+        if isinstance(e, ast.UnaryOp) and type(e.op) in _UN:
+            return _UN[type(e.op)](go(e.operand))
+        if isinstance(e, ast.BoolOp):
+            vals = [go(v) for v in e.values]
+            if isinstance(e.op, ast.And):
+                out = True
+                for v in vals:
+                    out = out and v
+                return out
+            out = False
+            for v in vals:
+                out = out or v
+            return out
+        if isinstance(e, ast.Compare):
+            ops = {ast.Eq: operator.eq, ast.NotEq: operator.ne, ast.Lt: operator.lt, ast.LtE: operator.le,
+                   ast.Gt: operator.gt, ast.GtE: operator.ge}
+            left = go(e.left)
+            for op, c in zip(e.ops, e.comparators):
+                right = go(c)
+                if type(op) not in ops:
+                    raise Unknown(t)
+                if not ops[type(op)](left, right):
+                    return False
+                left = right
+            return True
+        if isinstance(e, ast.Call) and isinstance(e.func, ast.Name) and e.func.id in ("min", "max", "abs", "int") and not e.keywords:
+            return {"min": min, "max": max, "abs": abs, "int": int}[e.func.id](*[go(a) for a in e.args])
+        if isinstance(e, ast.IfExp):
+            return go(e.body) if go(e.test) else go(e.orelse)
+        return ev.eval_in_module(module, e, scope=scope)
+    return go(expr)
